@@ -774,13 +774,21 @@ fn huge_upvalues(rng: &mut Rng) -> Module {
     Module { submodules: vec![], functions: vec![("main".into(), Function { arguments: vec![], cards })], imports: vec![] }
 }
 
+pub fn huge_upvalues_module(rng: &mut Rng) -> Module {
+    huge_upvalues(rng)
+}
+
+pub fn huge_locals_module(rng: &mut Rng) -> Module {
+    huge_locals(rng)
+}
+
 /// Random module. Mostly valid programs with a `main`; faults are planted with small probability.
 pub fn gen_module(rng: &mut Rng, cfg: &GenCfg, stats: &mut GenStats) -> Module {
-    if cfg.allow_huge && rng.chance(1, 120) {
+    if cfg.allow_huge && rng.chance(1, 60) {
         stats.classes.push("huge.locals");
         return huge_locals(rng);
     }
-    if cfg.allow_huge && rng.chance(1, 150) {
+    if cfg.allow_huge && rng.chance(1, 80) {
         stats.classes.push("huge.upvalues");
         return huge_upvalues(rng);
     }
@@ -811,7 +819,23 @@ pub fn gen_module(rng: &mut Rng, cfg: &GenCfg, stats: &mut GenStats) -> Module {
     if !sk.subs.is_empty() {
         stats.classes.push("module.submodules");
     }
-    fill_module(rng, cfg, &sk, &all, &var_pool, stats)
+    let mut m = fill_module(rng, cfg, &sk, &all, &var_pool, stats);
+    if cfg.many_globals && rng.chance(1, 12) {
+        // 17..24 distinct globals in one function: the 17th HandleTable::entry never returns (A-5)
+        stats.classes.push("globals.17+");
+        let n = 17 + rng.below(8) as usize;
+        if let Some((_, f)) = m.functions.iter_mut().find(|(n, _)| n == "main") {
+            for i in 0..n {
+                let c = if rng.chance(1, 2) {
+                    card(CardBody::SetGlobalVar(Box::new(SetVar { name: format!("many{}", i), value: card(CardBody::ScalarInt(i as i64)) })))
+                } else {
+                    card(CardBody::ReadVar(format!("many{}", i)))
+                };
+                f.cards.push(c);
+            }
+        }
+    }
+    m
 }
 
 fn walk_names(c: &Card, out: &mut std::collections::BTreeSet<String>) {
